@@ -42,7 +42,7 @@ if ! go build "${modflag[@]}" "${overlay[@]}" -o "$scratch/vcheck" ./cmd/vcheck 
 fi
 # free-running complement (parts with Race set): the same harness built with the race detector
 if [ ${#overlay[@]} -gt 0 ] && [ "$mode" != "--replay" ] && "$scratch/vcheck" hasrace "$id" "$mode" >/dev/null 2>&1; then
-  if ! go build -race "${modflag[@]}" "${overlay[@]}" -o "$scratch/vcheck-race" ./cmd/vcheck >"$scratch/build.log" 2>&1; then
+  if ! go build -race -gcflags=all=-l "${modflag[@]}" "${overlay[@]}" -o "$scratch/vcheck-race" ./cmd/vcheck >"$scratch/build.log" 2>&1; then
     echo "BUILD FAILED (-race build of the harness)"; cat "$scratch/build.log"; exit 2
   fi
   export VERIF_RACE_EXE="$scratch/vcheck-race"
